@@ -127,6 +127,21 @@ def main(tier, seed):
                         what = "%s: diagnostics %s printed, only PE%03d applies: %s" % (desc, sorted({d[1] for d in errs}), expect["code"], [d[3][-90:] for d in errs][:3])
                     if what is None and "line" in expect and not any(abs(d[2] - expect["line"]) <= 1 for d in hit):
                         what = "diagnostic for %s attributed to line %s, the token is on line %d" % (desc, [d[2] for d in hit], expect["line"])
+            # a redeclaration also names the line of the first declaration: the distance between the two lines it
+            # prints must be the distance between the two declarations (whatever the tool counts lines from)
+            if what is None and errs and cls == "duplicate_declaration":
+                q = expect["quoted"]
+                tl = text.split("\n")
+                decl = [i for i, l in enumerate(tl) if re.match(r"^\s*(?:TYPE|ENTITY|FUNCTION|PROCEDURE|RULE)\s+%s\b" % re.escape(q), l, re.I)]
+                if len(decl) != 2:
+                    decl = [i for i, l in enumerate(tl) if re.match(r"^\s*%s\s*:" % re.escape(q), l, re.I)]
+                for d in errs:
+                    m = re.search(r"Redeclaration of (\S+?)\.\s+Previous declaration was on line (\d+)", d[3])
+                    if m and m.group(1).lower() == q.lower() and len(decl) == 2:
+                        hist["previous_line_checked"] = hist.get("previous_line_checked", 0) + 1
+                        if d[2] - int(m.group(2)) != decl[1] - decl[0]:
+                            what = "%s: the diagnostic on line %d says the previous declaration is on line %s: the declarations are %d lines apart, not %d" % (
+                                desc, d[2], m.group(2), decl[1] - decl[0], d[2] - int(m.group(2)))
             if what:
                 oracle_fail += 1
                 p = save("c20-%d-%d-%s.exp" % (seed, k, cls), text)
